@@ -1,6 +1,8 @@
 # -*- coding: utf-8 -*-
 from __future__ import unicode_literals
 
+import copy
+
 from clikit.api.formatter import Style
 
 
@@ -60,7 +62,8 @@ class BorderStyle:
 
             cls._none = style
 
-        return cls._none
+        # Callers adapt the style in place: hand out a copy of the prototype
+        return copy.copy(cls._none)
 
     @classmethod
     def ascii(cls):  # type: () -> BorderStyle
@@ -69,7 +72,8 @@ class BorderStyle:
 
             cls._ascii = style
 
-        return cls._ascii
+        # Callers adapt the style in place: hand out a copy of the prototype
+        return copy.copy(cls._ascii)
 
     @classmethod
     def solid(cls):  # type: () -> BorderStyle
@@ -96,4 +100,5 @@ class BorderStyle:
 
             cls._solid = style
 
-        return cls._solid
+        # Callers adapt the style in place: hand out a copy of the prototype
+        return copy.copy(cls._solid)
